@@ -68,6 +68,10 @@ def categorical_dim(dim, items_dim=None):
         cats.append(c)
     extra = None
     typ = {"class": "categorical", "ordinal": False, "categories": cats}
+    if dim.get("logical"):
+        # a logical variable: categories 1 / 0 / -1 with the first one flagged selected and no
+        # sub-references; the library types it LOGICAL and treats it as a categorical one
+        cats[0]["selected"] = True
     if dim.get("typedef_order"):
         # the server may list the categories in another order than the data axis and say
         # so with an "order" list (category ids in DATA order); a wire-format variation
